@@ -214,6 +214,16 @@ CORPUS = [
         {"id": 2, "kind": "cart", "ins": [2, 4], "outs": [6, 7]},
         {"id": 3, "kind": "tf", "ins": [6, 7], "outs": [8], "fn": "lin", "k": 0},
         {"id": 4, "kind": "gather", "ins": [8, 9], "outs": [10], "depth": 2}]},
+    # parent-tag broadcast with more than 10 parents: 0.1 is a parent of 0.1.j but not of 0.10.j / 0.11.j
+    # (the parents come out of jobs, i.e. in a schedule-dependent order)
+    {"nports": 11, "sources": [{"port": 0, "value": L12}], "closed": [], "nodes": [
+        {"id": 0, "kind": "scatter", "ins": [0], "outs": [1, 2]},
+        {"id": 1, "kind": "tf", "ins": [1], "outs": [3], "fn": "range", "k": 3},
+        {"id": 2, "kind": "scatter", "ins": [3], "outs": [4, 5]},
+        {"id": 3, "kind": "exec", "ins": [1], "outs": [10], "k": 1},
+        {"id": 4, "kind": "dot", "ins": [10, 4], "outs": [6, 7]},
+        {"id": 5, "kind": "tf", "ins": [6, 7], "outs": [8], "fn": "lin", "k": 0},
+        {"id": 6, "kind": "gather", "ins": [8, 5], "outs": [9], "depth": 1}]},
     {"nports": 7, "sources": [{"port": 0, "value": [2, 7, 4]}], "closed": [], "nodes": [
         {"id": 0, "kind": "scatter", "ins": [0], "outs": [1, 2]},
         {"id": 1, "kind": "tf", "ins": [1], "outs": [3], "fn": "add", "k": 3},
